@@ -177,11 +177,66 @@ func publishPattern(fd *ast.FuncDecl, target string) string {
 	walk(fd.Body, false)
 	switch {
 	case inside > 0 && outside == 0:
-		return "lockedInit"
+		if lockedInitErrShutsInner(fd) {
+			return "lockedInit"
+		}
+		return "lockedInitLeak"
 	case outside > 0:
 		return "publishOnly"
 	}
 	return "unknown"
+}
+
+// lockedInitErrShutsInner: does the failure branch of the LockedInit call (`if err := X.LockedInit(...); err != nil {…}` or
+// `err := X.LockedInit(...)` followed by `if err != nil {…}`) shut down something other than the receiver itself,
+// i.e. the inner source that was just created?
+func lockedInitErrShutsInner(fd *ast.FuncDecl) bool {
+	recv := ""
+	if fd.Recv != nil && len(fd.Recv.List) > 0 && len(fd.Recv.List[0].Names) > 0 {
+		recv = fd.Recv.List[0].Names[0].Name
+	}
+	shutsInner := func(body *ast.BlockStmt) bool {
+		ok := false
+		ast.Inspect(body, func(n ast.Node) bool {
+			if c, isc := n.(*ast.CallExpr); isc {
+				name := exprName(c.Fun)
+				if strings.HasSuffix(name, ".Shutdown") && name != recv+".Shutdown" {
+					ok = true
+				}
+			}
+			return true
+		})
+		return ok
+	}
+	found, good := 0, 0
+	ast.Inspect(fd.Body, func(n ast.Node) bool {
+		bl, isb := n.(*ast.BlockStmt)
+		if !isb {
+			return true
+		}
+		for i, st := range bl.List {
+			switch v := st.(type) {
+			case *ast.IfStmt:
+				if v.Init != nil && containsCall(v.Init, ".LockedInit") {
+					found++
+					if shutsInner(v.Body) {
+						good++
+					}
+				}
+			case *ast.AssignStmt:
+				if containsCall(v, ".LockedInit") {
+					found++
+					if i+1 < len(bl.List) {
+						if ifs, isif := bl.List[i+1].(*ast.IfStmt); isif && shutsInner(ifs.Body) {
+							good++
+						}
+					}
+				}
+			}
+		}
+		return true
+	})
+	return found > 0 && found == good
 }
 
 // guardedAppend: is `h.subscribers = append(...)` in fd preceded (same block) by a Lock() call on a mutex field?
@@ -351,7 +406,7 @@ func main() {
 
 	pat := func(s string) string {
 		switch s {
-		case "registerOnly", "publishOnly", "registerThenCheck", "lockedInit":
+		case "registerOnly", "publishOnly", "registerThenCheck", "lockedInit", "lockedInitLeak":
 			return "Pattern." + s
 		}
 		return "Pattern.registerOnly /- unknown shape -/"
